@@ -4,6 +4,7 @@
 // The heap is threaded sequentially: the proofs hold for ONE thread executing one entry without interference.
 // ======================================================================================
 //@@ include prelude/state.rs
+//@@ include prelude/consts.rs
 
 #[verifier::external_body]
 pub struct Vars { _p: u8 }
@@ -57,6 +58,12 @@ impl Clone for Workflow { #[verifier::external_body] fn clone(&self) -> (r: Self
 //@@ opt dropderive=Clone
 //@@ end
 impl Clone for Error { #[verifier::external_body] fn clone(&self) -> (r: Self) ensures r == *self { unimplemented!() } }
+//@@ extract file=acts/src/scheduler/process/task/hook.rs item="enum TaskLifeCycle" name=TaskLifeCycle
+//@@ opt structural
+//@@ end
+//@@ extract file=acts/src/scheduler/process/task/hook.rs item="enum StatementBatch" name=StatementBatch
+//@@ opt dropderive=Clone
+//@@ end
 pub type Result<T> = std::result::Result<T, ActError>;
 // TRUSTED: format! yields some string (R3)
 #[verifier::external_body]
@@ -76,21 +83,23 @@ impl WeakNode {
 pub open spec fn kind_of(c: NodeContent) -> NodeKind {
     match c { NodeContent::Workflow(_) => NodeKind::Workflow, NodeContent::Branch(_) => NodeKind::Branch, NodeContent::Step(_) => NodeKind::Step, NodeContent::Act(_) => NodeKind::Act }
 }
+// node links live behind RwLocks and DO change at run time (setup / generated acts are built into the tree):
+// they are uninterpreted functions of the node and of a link revision counter kept in the heap
+pub uninterp spec fn n_next(rev: int, n: Node) -> Option<Arc<Node>>;
+pub uninterp spec fn n_children_in(rev: int, n: Node, typ: NodeOutputKind, on: Option<Seq<char>>) -> Seq<Arc<Node>>;
+pub uninterp spec fn n_parent(rev: int, n: Node) -> Option<Arc<Node>>;
+pub open spec fn n_children(rev: int, n: Node) -> Seq<Arc<Node>> { n_children_in(rev, n, NodeOutputKind::Normal, None) }
 impl Node {
-    pub uninterp spec fn s_next(&self) -> Option<Arc<Node>>;
-    pub uninterp spec fn s_children_in(&self, typ: NodeOutputKind, on: Option<Seq<char>>) -> Seq<Arc<Node>>;
-    pub uninterp spec fn s_parent(&self) -> Option<Arc<Node>>;
-    pub open spec fn s_children(&self) -> Seq<Arc<Node>> { self.s_children_in(NodeOutputKind::Normal, None) }
     pub open spec fn s_kind(&self) -> NodeKind { kind_of(self.content) }
     // TRUSTED (each mirrors a 1-5 line body of tree/node.rs over the RwLock'd link fields)
     #[verifier::external_body]
-    pub fn next(&self) -> (r: WeakNode) ensures r.target() == self.s_next() { unimplemented!() }
+    pub fn next(&self, Tracked(h): Tracked<&Heap>) -> (r: WeakNode) ensures r.target() == n_next(h.links_rev, *self) { unimplemented!() }
     #[verifier::external_body]
-    pub fn children(&self) -> (r: Vec<Arc<Node>>) ensures r@ == self.s_children() { unimplemented!() }
+    pub fn children(&self, Tracked(h): Tracked<&Heap>) -> (r: Vec<Arc<Node>>) ensures r@ == n_children(h.links_rev, *self) { unimplemented!() }
     #[verifier::external_body]
-    pub fn children_in(&self, typ: NodeOutputKind, on: Option<String>) -> (r: Vec<Arc<Node>>) ensures r@ == self.s_children_in(typ, opt_str(on)) { unimplemented!() }
+    pub fn children_in(&self, typ: NodeOutputKind, on: Option<String>, Tracked(h): Tracked<&Heap>) -> (r: Vec<Arc<Node>>) ensures r@ == n_children_in(h.links_rev, *self, typ, opt_str(on)) { unimplemented!() }
     #[verifier::external_body]
-    pub fn parent(&self) -> (r: Option<Arc<Node>>) ensures r == self.s_parent() { unimplemented!() }
+    pub fn parent(&self, Tracked(h): Tracked<&Heap>) -> (r: Option<Arc<Node>>) ensures r == n_parent(h.links_rev, *self) { unimplemented!() }
     #[verifier::external_body]
     pub fn kind(&self) -> (r: NodeKind) ensures r == self.s_kind() { unimplemented!() }
     #[verifier::external_body]
@@ -116,7 +125,9 @@ pub ghost struct Heap {
     pub cur: Tid,                        // Context's current task (RefCell<Arc<Task>>)
     pub proc_state: TaskState,
     pub proc_err: Option<Error>,
-    pub queue: Seq<(Arc<Node>, Tid)>,    // tasks created and pushed to the runtime queue: (node, prev tid), in order
+    pub queue: Seq<Tid>,                 // tasks pushed to the runtime queue (Runtime::push), in order
+    pub links_rev: int,                  // revision of the node links (bumped whenever acts are built into the tree at run time)
+    pub hooks: Map<Tid, Map<TaskLifeCycle, Seq<StatementBatch>>>,   // lifecycle hooks per task
     pub task_events: Seq<(Tid, TaskState)>,   // Scheduler::emit_task_event(task) calls: (tid, state at the time)
     pub proc_events: Seq<TaskState>,     // Scheduler::emit_proc_event calls: process state at the time
     pub msg_closed: Seq<(Seq<char>, Seq<char>)>,   // set_message_with(pid, tid, Completed) calls
@@ -125,6 +136,10 @@ pub ghost struct Heap {
 pub const ROOT_TID: &'static str = "$";
 
 impl Heap {
+    // the context's current task exists; the process is not terminal while its root task is not (process.rs / context.rs keep the mirror)
+    pub open spec fn wf(&self) -> bool {
+        self.has(self.cur) && (self.has(ROOT_TID@) && !st_terminal(self.st(ROOT_TID@)) ==> !st_terminal(self.proc_state))
+    }
     pub open spec fn has(&self, t: Tid) -> bool { self.tasks.dom().contains(t) }
     pub open spec fn st(&self, t: Tid) -> TaskState { self.tasks[t].state }
 }
@@ -143,7 +158,7 @@ pub open spec fn task_fwd(a: TaskAbs, b: TaskAbs) -> bool {
 }
 pub open spec fn fwd(a: Heap, b: Heap) -> bool {
     &&& forall|t: Tid| #[trigger] a.has(t) ==> b.has(t) && task_fwd(a.tasks[t], b.tasks[t])
-    &&& forall|t: Tid| #[trigger] b.has(t) && !a.has(t) ==> b.tasks[t].revived == 0
+    &&& forall|t: Tid| #[trigger] b.has(t) && !a.has(t) ==> b.tasks[t].revived <= 1
     &&& legal(a.proc_state, b.proc_state)
     &&& a.queue.is_prefix_of(b.queue) && a.task_events.is_prefix_of(b.task_events) && a.proc_events.is_prefix_of(b.proc_events) && a.msg_closed.is_prefix_of(b.msg_closed)
 }
@@ -151,17 +166,29 @@ pub proof fn lemma_task_fwd_trans(a: TaskAbs, b: TaskAbs, c: TaskAbs)
     requires task_fwd(a, b), task_fwd(b, c)
     ensures task_fwd(a, c)
 {}
-pub proof fn lemma_fwd_refl(a: Heap) ensures fwd(a, a) {}
-pub proof fn lemma_fwd_trans(a: Heap, b: Heap, c: Heap)
-    requires fwd(a, b), fwd(b, c)
+pub broadcast proof fn lemma_fwd_refl(a: Heap) ensures #[trigger] fwd(a, a) {}
+pub broadcast proof fn lemma_fwd_trans(a: Heap, b: Heap, c: Heap)
+    requires #[trigger] fwd(a, b), #[trigger] fwd(b, c)
     ensures fwd(a, c)
 {
     assert forall|t: Tid| #[trigger] a.has(t) implies c.has(t) && task_fwd(a.tasks[t], c.tasks[t]) by {
         assert(b.has(t));
         lemma_task_fwd_trans(a.tasks[t], b.tasks[t], c.tasks[t]);
     }
-    assert forall|t: Tid| #[trigger] c.has(t) && !a.has(t) implies c.tasks[t].revived == 0 by {
+    assert forall|t: Tid| #[trigger] c.has(t) && !a.has(t) implies c.tasks[t].revived <= 1 by {
         if b.has(t) { assert(task_fwd(b.tasks[t], c.tasks[t])); }
+    }
+    assert(legal(a.proc_state, c.proc_state));
+}
+pub proof fn lemma_set_state_fwd(h: Heap, t: Tid, s: TaskState)
+    requires h.has(t), legal(h.st(t), s) || catch_revive(h.tasks[t], s), legal(h.proc_state, if st_terminal(s) && t == ROOT_TID@ { s } else { h.proc_state })
+    ensures fwd(h, set_state_spec(h, t, s))
+{
+    let g = set_state_spec(h, t, s);
+    assert forall|x: Tid| #[trigger] h.has(x) implies g.has(x) && task_fwd(h.tasks[x], g.tasks[x]) by {
+        if x == t {
+            if h.st(t) is Error && s is Running { assert(catch_revive(h.tasks[t], s) || legal(h.st(t), s)); }
+        }
     }
 }
 
@@ -213,6 +240,10 @@ impl Task {
             legal(old(h).st(self.id@), state) || catch_revive(old(h).tasks[self.id@], state),
         ensures
             *final(h) == set_state_spec(*old(h), self.id@, state),
+            // consequences (lemma_set_state_fwd), stated for the callers' benefit
+            final(h).cur == old(h).cur, final(h).has(self.id@),
+            (self.id@ != ROOT_TID@ || !st_terminal(state) || legal(old(h).proc_state, state)) ==> fwd(*old(h), *final(h)),
+            old(h).wf() && !(self.id@ == ROOT_TID@ && old(h).st(self.id@) is Error && state is Running) ==> final(h).wf() && fwd(*old(h), *final(h)),
     { unimplemented!() }
     #[verifier::external_body]
     pub fn set_err(&self, err: &Error, Tracked(h): Tracked<&mut Heap>)
@@ -282,4 +313,100 @@ pub open spec fn set_state_spec(h: Heap, t: Tid, s: TaskState) -> Heap {
 }
 pub open spec fn data_written(a: Heap, b: Heap, t: Tid) -> bool {
     b == (Heap { tasks: a.tasks.insert(t, TaskAbs { data_rev: b.tasks[t].data_rev, flags: b.tasks[t].flags, ..a.tasks[t] }), ..a })
+}
+
+// ---- process / context / scheduler primitives ------------------------------------------------
+pub uninterp spec fn new_tid(h: Heap) -> Tid;     // nanoid: ASSUMED fresh
+pub open spec fn fresh_task(node: Arc<Node>, prev: Option<Tid>) -> TaskAbs {
+    TaskAbs { state: TaskState::None, prev: prev, err: None, flags: Map::empty(), data_rev: 0, start_time: 0, end_time: 0, revived: 0, node: node }
+}
+impl Process {
+    #[verifier::external_body]
+    pub fn state(&self, Tracked(h): Tracked<&Heap>) -> (r: TaskState) ensures r == h.proc_state { unimplemented!() }
+    // process.rs: set_state (state + start/end time)
+    #[verifier::external_body]
+    pub fn set_state(&self, state: TaskState, Tracked(h): Tracked<&mut Heap>)
+        requires legal(old(h).proc_state, state)
+        ensures *final(h) == (Heap { proc_state: state, ..*old(h) }),
+    { unimplemented!() }
+    #[verifier::external_body]
+    pub fn set_err(&self, err: &Error, Tracked(h): Tracked<&mut Heap>)
+        requires legal(old(h).proc_state, TaskState::Error)
+        ensures *final(h) == (Heap { proc_state: TaskState::Error, proc_err: Some(*err), ..*old(h) }),
+    { unimplemented!() }
+    #[verifier::external_body]
+    pub fn task(&self, tid: &str, Tracked(h): Tracked<&Heap>) -> (r: Option<Arc<Task>>)
+        ensures r is Some <==> h.has(tid@), r is Some ==> r->Some_0.id@ == tid@ && wf_task(*h, *r->Some_0),
+    { unimplemented!() }
+    #[verifier::external_body]
+    pub fn root(&self, Tracked(h): Tracked<&Heap>) -> (r: Option<Arc<Task>>)
+        ensures r is Some <==> h.has(ROOT_TID@), r is Some ==> r->Some_0.id@ == ROOT_TID@ && wf_task(*h, *r->Some_0),
+    { unimplemented!() }
+    // process.rs: create_task -- a new task in state None whose prev link is `prev`
+    #[verifier::external_body]
+    pub fn create_task(&self, node: &Arc<Node>, prev: Option<Arc<Task>>, Tracked(h): Tracked<&mut Heap>) -> (r: Arc<Task>)
+        requires prev is Some ==> old(h).has(prev->Some_0.id@)
+        ensures
+            !old(h).has(r.id@), r.node == *node,
+            *final(h) == (Heap { tasks: old(h).tasks.insert(r.id@, fresh_task(*node, match prev { Some(p) => Some(p.id@), None => None })), ..*old(h) }),
+    { unimplemented!() }
+}
+impl Runtime {
+    #[verifier::external_body]
+    pub fn scher(&self) -> (r: &Scheduler) { unimplemented!() }
+    // runtime.rs: push = cache.upsert(task) + scheduler queue send
+    #[verifier::external_body]
+    pub fn push(&self, task: &Arc<Task>, Tracked(h): Tracked<&mut Heap>)
+        requires old(h).has(task.id@)
+        ensures *final(h) == (Heap { queue: old(h).queue.push(task.id@), ..*old(h) }),
+    { unimplemented!() }
+}
+// what one task event does (summary of the `on_task` handler registered in Runtime::initialize: upsert, hooks, message):
+// hooks may start catch/timeout steps, revive the emitted task (catch) and review upwards -- all within `fwd`
+pub open spec fn emit_summary(a: Heap, b: Heap, t: Tid) -> bool {
+    &&& fwd(a, b) && b.cur == a.cur && b.wf()
+    &&& b.task_events.len() > a.task_events.len() && b.task_events[a.task_events.len() as int] == (t, a.st(t))
+}
+impl Scheduler {
+    // ASSUMED here, PROVED for the lifted `on_task` closure (same spec function emit_summary)
+    #[verifier::external_body]
+    pub fn emit_task_event(&self, task: &Arc<Task>, Tracked(h): Tracked<&mut Heap>) -> (r: Result<()>)
+        requires old(h).wf(), wf_task(*old(h), **task)
+        ensures emit_summary(*old(h), *final(h), task.id@), r is Ok,
+    { unimplemented!() }
+    // summary of the `on_proc` handler: start / complete / error event, return to a parent act, removal from the cache
+    #[verifier::external_body]
+    pub fn emit_proc_event(&self, proc: &Arc<Process>, Tracked(h): Tracked<&mut Heap>)
+        ensures *final(h) == (Heap { proc_events: old(h).proc_events.push(old(h).proc_state), ..*old(h) }),
+    { unimplemented!() }
+}
+pub uninterp spec fn eval_result<T>(expr: Seq<char>, h: Heap) -> Result<T>;
+pub open spec fn data_only(a: Heap, b: Heap) -> bool {
+    // scripts may write task data / process env (not `$` flags -- listed assumption), nothing else
+    &&& b.tasks.dom() == a.tasks.dom()
+    &&& forall|t: Tid| #[trigger] a.has(t) ==> b.tasks[t] == (TaskAbs { data_rev: b.tasks[t].data_rev, ..a.tasks[t] })
+    &&& b == (Heap { tasks: b.tasks, ..a })
+}
+pub proof fn lemma_data_only_fwd(a: Heap, b: Heap)
+    requires data_only(a, b)
+    ensures fwd(a, b), a.wf() ==> b.wf(), a.cur == b.cur
+{
+    assert forall|t: Tid| #[trigger] a.has(t) implies b.has(t) && task_fwd(a.tasks[t], b.tasks[t]) by {}
+}
+impl Context {
+    #[verifier::external_body]
+    pub fn task(&self, Tracked(h): Tracked<&Heap>) -> (r: Arc<Task>)
+        requires h.wf() ensures r.id@ == h.cur, wf_task(*h, *r) { unimplemented!() }
+    #[verifier::external_body]
+    pub fn set_task(&self, task: &Arc<Task>, Tracked(h): Tracked<&mut Heap>)
+        requires wf_task(*old(h), **task)
+        ensures *final(h) == (Heap { cur: task.id@, ..*old(h) }),
+    { unimplemented!() }
+    // context.rs: eval = run the expression in the JS environment (QuickJS, FFI): ASSUMED
+    #[verifier::external_body]
+    pub fn eval<T>(&self, expr: &str, Tracked(h): Tracked<&mut Heap>) -> (r: Result<T>)
+        ensures data_only(*old(h), *final(h)), r == eval_result::<T>(expr@, *old(h)),
+                // consequences of data_only (lemma_data_only_fwd)
+                fwd(*old(h), *final(h)), old(h).wf() ==> final(h).wf(), final(h).cur == old(h).cur,
+    { unimplemented!() }
 }
